@@ -4,6 +4,9 @@ let channels : (string * ((string * string) list -> string)) list = [
   ("art", Chan_art.run);
   ("flags", Chan_flags.run_flags);
   ("jprops", Chan_flags.run_jprops);
+  ("sort", Chan_sort.run_sort);
+  ("sortcodec", Chan_sort.run_codec);
+  ("sortkm", Chan_sort.run_km);
 ]
 
 let () =
